@@ -125,6 +125,8 @@ structure Conn where
   phase : Phase
   goAway : Nat      -- `api.OnShutdown` events delivered (proxy: `serverStreamConn.GoAway()`)
   served : Nat      -- requests completed on this connection
+  notified : Nat    -- go-away notifications the client can see (bolt go-away frame, HTTP/2 GOAWAY; none for HTTP/1)
+  refusedReq : Nat  -- requests refused on this connection because it had gone away (HTTP/2: stream id above the GOAWAY's last id, retryable)
 deriving DecidableEq, Repr
 
 structure Sys where
@@ -137,6 +139,8 @@ structure Sys where
   maxWait : Int         -- drain time
   exited : Bool         -- the drain loop returned: `Shutdown` returns and a stopping process goes on to exit
   refused : Nat         -- connection attempts that were not accepted
+  notifies : Bool       -- protocol trait: `GoAway()` puts a notification on the wire (bolt with go-away enabled, HTTP/2)
+  refuseNew : Bool      -- protocol trait: a connection that has gone away ignores new streams (HTTP/2)
 deriving DecidableEq, Repr
 
 inductive Ev
@@ -157,6 +161,8 @@ def modifyAt (l : List Conn) (i : Nat) (f : Conn → Conn) : List Conn :=
 
 def phaseAt (l : List Conn) (i : Nat) : Option Phase := (l[i]?).map (·.phase)
 
+def goneAway (l : List Conn) (i : Nat) : Bool := ((l[i]?).map (fun c => decide (c.goAway > 0))).getD false
+
 def countActive (l : List Conn) : Nat := (l.filter (fun c => c.phase == .active)).length
 
 /-- the exit label is enabled: the drain loop is running and its (regenerated) condition is false -/
@@ -166,7 +172,7 @@ def step (s : Sys) (e : Ev) : Sys :=
   if s.exited then s else
   match e with
   | .connect =>
-    if accepting s.lis then { s with conns := s.conns ++ [⟨.idle, 0, 0⟩] } else { s with refused := s.refused + 1 }
+    if accepting s.lis then { s with conns := s.conns ++ [⟨.idle, 0, 0, 0, 0⟩] } else { s with refused := s.refused + 1 }
   | .bytes i =>
     match phaseAt s.conns i with
     | some .idle => { s with conns := modifyAt s.conns i (fun c => { c with phase := .incomplete }) }
@@ -174,7 +180,11 @@ def step (s : Sys) (e : Ev) : Sys :=
   | .decoded i =>
     match phaseAt s.conns i with
     | some .idle | some .incomplete =>
-      { s with conns := modifyAt s.conns i (fun c => { c with phase := .active }), gauge := s.gauge + 1 }
+      if s.refuseNew && goneAway s.conns i then
+        -- the stream layer ignores the new stream: no downstream stream, nothing counted; the client may retry elsewhere
+        { s with conns := modifyAt s.conns i (fun c => { c with phase := .idle, refusedReq := c.refusedReq + 1 }) }
+      else
+        { s with conns := modifyAt s.conns i (fun c => { c with phase := .active }), gauge := s.gauge + 1 }
     | _ => s
   | .respDone i =>
     match phaseAt s.conns i with
@@ -185,7 +195,9 @@ def step (s : Sys) (e : Ev) : Sys :=
     let (l', o) := lisShutdown s.lis stage
     if o.shutdownCb > 0 then
       -- activeListener.OnShutdown: OnShutdown event to every existing connection, then waitConnectionsClose(drainTime)
-      let conns := if onShutdownBroadcasts then s.conns.map (fun c => { c with goAway := c.goAway + 1 }) else s.conns
+      let conns := if onShutdownBroadcasts then
+          s.conns.map (fun c => { c with goAway := c.goAway + 1, notified := c.notified + (if s.notifies then 1 else 0) })
+        else s.conns
       if onShutdownWaits then
         { s with lis := l', stopBegan := true, conns := conns, draining := true, waited := 0 }
       else { s with lis := l', stopBegan := true, conns := conns, exited := true }
@@ -197,8 +209,8 @@ def run (s : Sys) : List Ev → Sys
   | [] => s
   | e :: r => run (step s e) r
 
-def sysInit (maxWait : Int) : Sys :=
-  ⟨⟨ListenerRunning, true, true, true, true⟩, [], 0, false, false, 0, maxWait, false, 0⟩
+def sysInit (maxWait : Int) (notifies refuseNew : Bool) : Sys :=
+  ⟨⟨ListenerRunning, true, true, true, true⟩, [], 0, false, false, 0, maxWait, false, 0, notifies, refuseNew⟩
 
 /-- well-formed: the gauge equals the number of active requests -/
 def Sys.wf (s : Sys) : Prop := s.gauge = (countActive s.conns : Int)
